@@ -97,7 +97,8 @@ RULE = ("seeded random packages (2-5 modules incl. private modules and a sub-pac
         "reachable position, value edits between ==-equal literals of different type incl. containers) applied at random public/private locations, in a single package or in the facade layout (public `pkg` "
         "re-exporting from a private top-level `_pkg`); plus identical copies, post-load `public` flag overrides, 3 scripted histories, the "
         "corpus/C11 regression packages, importable packages whose facades compose __all__ from other modules' __all__ (4 styles, 4 layouts; "
-        "really imported for CPython's __all__) and 3-version git histories (flat / src layouts) for the CLI and load_git. A case is non-trivial when the edit script is non-empty "
+        "really imported for CPython's __all__), importable facades without __all__ re-exporting by wildcard (authority: CPython's `from m import *`) "
+        "and 3-version git histories (flat / src layouts, each with a module of @dataclass classes) for the CLI, griffe.check() and load_git. A case is non-trivial when the edit script is non-empty "
         "or aliases are present; distinct by the rendered (old, new) sources")
 TRUSTED = ["harness abstraction of loaded Griffe trees into model stores and raw stores (harness/props/c11.py:Abstraction, RawAbstraction)",
            "translator harness/translate/c11_ladder.py (whitelisted AST shapes of mixins.py / diff.py; fails closed)",
@@ -383,7 +384,7 @@ def gen_hierarchy(rng, mods):
     return shape
 
 
-def gen_composed_pkg(rng):
+def gen_composed_pkg(rng, wildcard=False):
     """An importable package whose facade composes its __all__ from another module's __all__:
     a private implementation module `pkg/_impl.py` (literal __all__) and a facade that imports the module, imports its names and says
     `__all__ = ["connect", *_impl.__all__]` / `[...] + _impl.__all__` / `__all__ += _impl.__all__` / `__all__.extend(_impl.__all__)`.
@@ -394,13 +395,30 @@ def gen_composed_pkg(rng):
     for _ in range(rng.randint(0, 2)):
         root.defs.append(gen_def(rng, used, 1, private=False))
     impl = Mod(rng.choice(["_impl", "_core"]))
-    iu = set()
+    iu = used      # no name is defined on both sides: a local definition would shadow (or be shadowed by) the re-exported one
     for _ in range(rng.randint(2, 4)):
         impl.defs.append(gen_def(rng, iu, 0, private=False))
     if rng.random() < 0.5:
         impl.defs.append(gen_def(rng, iu, 1, private=True))
     names = [d["name"] for d in impl.defs if not d["name"].startswith("_")]
     impl.all = [n for n in names if rng.random() < 0.85] or names[:1]
+    if wildcard:
+        # a facade WITHOUT __all__ that re-exports by wildcard: `from pkg._impl import *` in the root __init__ or in a sub-package
+        # __init__ / sibling module; the implementation module lists its public names in __all__ or has none (then: no underscore)
+        if rng.random() < 0.4:
+            impl.all = None
+        star = {"kind": "import", "frm": f"pkg.{impl.name}", "name": "*"}
+        where = rng.choice(["root", "root", "subpkg", "sibling"])
+        if where == "root":
+            root.defs.insert(rng.randint(0, len(root.defs)), star)
+            root.subs = [impl]
+        else:
+            fac = Mod("api", where == "subpkg")
+            fac.defs = [star, {"kind": "func", "name": "connect", "sig": random_sig(rng), "ret": None}]
+            root.subs = [impl, fac]
+        if rng.random() < 0.3:
+            root.defs.append({"kind": "import", "frm": "os", "name": "sep"})       # an explicit import next to it stays private
+        return root
     layout = rng.choice(["subpkg", "subpkg", "sibling-after", "sibling-before"])
     fac = Mod("api", True) if layout == "subpkg" else Mod("api" if layout == "sibling-after" else "Facade")
     style = rng.choice(["star", "plus", "aug", "extend"])
@@ -437,7 +455,12 @@ def cpython_all(root_dir: Path):
     code = ("import importlib, json, pkgutil, sys\nimport pkg\nout = {'pkg': getattr(pkg, '__all__', None)}\n"
             "for m in pkgutil.walk_packages(pkg.__path__, 'pkg.'):\n"
             "    out[m.name] = getattr(importlib.import_module(m.name), '__all__', None)\n"
-            "print(json.dumps({k: (None if v is None else list(v)) for k, v in out.items()}))\n")
+            "star = {}\n"
+            "for name in list(out):\n"
+            "    ns = {}\n"
+            "    exec('from ' + name + ' import *', ns)\n"
+            "    star[name] = sorted(k for k in ns if k != '__builtins__')\n"
+            "print(json.dumps({'all': {k: (None if v is None else list(v)) for k, v in out.items()}, 'star': star}))\n")
     env = {k: v for k, v in os.environ.items() if k != "PYTHONPATH"}
     p = subprocess.run([sys.executable, "-S", "-c", code], cwd=root_dir, capture_output=True, text=True, timeout=60,
                        env=dict(env, PYTHONPATH=str(root_dir), PYTHONDONTWRITEBYTECODE="1"))
@@ -585,6 +608,9 @@ def drop_refs(pkg, modpath, name):
 def e_add_def(rng, pkg, private):
     lst, p, mod, ck = rng.choice(containers(pkg))
     used = {bound(d) for d in lst} | ({s.name for s in mod.subs} if ck == "module" else set())
+    for d0 in lst:        # ... nor a name that a wildcard import brings in
+        if d0["kind"] == "import" and d0["name"] == "*":
+            used |= {bound(x) for m0, mp0 in iter_mods(pkg) if mp0 == d0["frm"] for x in m0.defs}
     if ck == "class":     # a new class member must not shadow an inherited one: stay clear of every name bound in any class body
         used |= {bound(d) for l2, d, p2, m2, mp2 in iter_defs(pkg) if l2 is not m2.defs}
     d = gen_def(rng, used, 1, private=private)
@@ -1119,7 +1145,7 @@ class RawAbstraction:
         return f"{self.paths[c]}.{n}"
 
 
-def doc_is_public(parent, m, exports_map=None):
+def doc_is_public(parent, m, exports_map=None, star_map=None):
     """The decision ladder as documented in the docstring of is_public (+ the documented module exception).
     exports_map (module path -> CPython's real __all__ after import, or None): used instead of Griffe's `exports` where given."""
     if m.public is not None:
@@ -1134,6 +1160,8 @@ def doc_is_public(parent, m, exports_map=None):
     special = nm.startswith("__") and nm.endswith("__")
     if nm.startswith("_") and not special:
         return False
+    if parent is not None and star_map is not None and nm in star_map.get(parent.path, ()):
+        return True      # bound by a wildcard import and exposed by CPython's `from <parent> import *`: not "imported" in the ladder's sense
     if parent is not None and nm in parent.imports:
         return False
     return True
@@ -1148,7 +1176,7 @@ def members_of(o):
     return {}
 
 
-def reference_reach(old_root, new_root, exports_map=None):
+def reference_reach(old_root, new_root, exports_map=None, star_map=None):
     """Authority: which old objects / (old,new) pairs are reachable from the roots through documented-public members and
     resolvable alias targets.  No seen_paths cut: every route counts.  Returns (old paths, new paths of counterparts)."""
     from _griffe.exceptions import AliasResolutionError, CyclicAliasError
@@ -1184,7 +1212,7 @@ def reference_reach(old_root, new_root, exports_map=None):
         else:
             nm_ = members_of(n) if n is not None and not n.is_alias else {}
             for name, m in members_of(o).items():
-                if doc_is_public(o, m, exports_map):
+                if doc_is_public(o, m, exports_map, star_map):
                     todo.append(("head", m, nm_.get(name)))
     pairs = {(k[1], k[2]) for k in seen if k[0] == "members" and k[2] is not None}
     return old_paths, new_paths, pairs
@@ -1414,7 +1442,7 @@ class Case:
         write_tree(d / "old", self.fo)
         write_tree(d / "new", self.fn)
         self.old, self.new = load_pkg(d / "old"), load_pkg(d / "new")
-        self.cpy_all = (cpython_all(d / "old"), cpython_all(d / "new")) if self.stream == "composed-all" else None
+        self.cpy_all = (cpython_all(d / "old"), cpython_all(d / "new")) if self.stream in ("composed-all", "wildcard-facade") else None
         for path, val in self.overrides:
             for t in (self.old, self.new):
                 try:
@@ -1576,27 +1604,43 @@ def evaluate(ctx, c, status, ibs, mstatus, mbs, wf, exitc, ao, an, log, tally):
         tally["unresolvable_survived"] += 1
     if any(n[2] == ["alias", ["cyc"]] for n in ao.nodes + an.nodes):
         tally["cyclic_survived"] += 1
-    exports_old = None
+    exports_old = star_old = None
     if getattr(c, "cpy_all", None) and not c.overrides:
-        # the public frontier according to CPython: the real __all__ of every module after import
-        for tree, real, side in ((c.old, c.cpy_all[0], "old"), (c.new, c.cpy_all[1], "new")):
+        # the public frontier according to CPython: the real __all__ of every module after import, and what `from m import *` binds
+        stars = []
+        for tree, real, side, spec in ((c.old, c.cpy_all[0], "old", c.old_spec), (c.new, c.cpy_all[1], "new", c.new_spec)):
+            stars.append(None)
             if real is None:
                 ctx.observe("frontier", "package-does-not-import")
                 continue
-            for mpath, names in real.items():
+            # names a module binds through a wildcard import only (spec) and that CPython's star-import of the module exposes
+            wild = {}
+            for mod_, mp_ in iter_mods(spec):
+                if any(d["kind"] == "import" and d["name"] == "*" for d in mod_.defs):
+                    own = {bound(d) for d in mod_.defs if not (d["kind"] == "import" and d["name"] == "*")} | {x.name for x in mod_.subs}
+                    wild[mp_] = {n for n in real["star"].get(mp_, []) if n not in own} if mod_.all is None and not mod_.all_from else set()
+            stars[-1] = wild
+            for mpath, names in real["all"].items():
                 try:
                     mod = tree.modules_collection.get_member(mpath)
                 except Exception:  # noqa: BLE001
                     continue
-                ctx.observe("frontier", f"{side} __all__={'none' if names is None else 'composed' if len(names) > 1 else 'short'}")
+                ctx.observe("frontier", f"{side} __all__={'none' if names is None else 'composed' if len(names) > 1 else 'short'}{' wildcard' if wild.get(mpath) else ''}")
+                for n in wild.get(mpath, ()):
+                    if n not in mod.members:
+                        ctx.property_failure(c.json, {"a name CPython's `from m import *` re-exports through a wildcard import is no member of the loaded module": f"{mpath}.{n}", "side": side})
                 for m in mod.members.values():
                     tally["frontier_members_checked"] += 1
-                    if bool(m.is_public) != doc_is_public(mod, m, real):
-                        ctx.property_failure(c.json, {"is_public deviates from the documented ladder applied to CPython's real __all__": m.path,
+                    if m.name in wild.get(mpath, ()):
+                        tally["frontier_wildcard_members_checked"] += 1
+                    if bool(m.is_public) != doc_is_public(mod, m, real["all"], wild):
+                        ctx.property_failure(c.json, {"is_public deviates from the documented ladder applied to CPython's real __all__ / star-import": m.path,
                                                       "is_public": bool(m.is_public), "module": mpath, "cpython __all__": names,
+                                                      "cpython `from m import *`": real["star"].get(mpath), "imports": dict(mod.imports),
                                                       "griffe exports": None if mod.exports is None else [str(e) for e in mod.exports], "side": side})
-        exports_old = c.cpy_all[0]
-    reach_old, reach_new, reach_pairs = reference_reach(c.old, c.new, exports_old)
+        if c.cpy_all[0] is not None:
+            exports_old, star_old = c.cpy_all[0]["all"], stars[0]
+    reach_old, reach_new, reach_pairs = reference_reach(c.old, c.new, exports_old, star_old)
     view_explained, view_unknown = class_view_oracle(ctx, c, ibs, reach_pairs, tally)
     # every reported object is publicly reachable by the documented ladder
     for k, path, prm in ibs:
@@ -1974,7 +2018,13 @@ def cli_case(ctx, k, c):
         ctx.property_failure(dict(c.json, cli=True), {"find_breaking_changes did not complete": status})
 
 
-def make_history(ctx, stream, force_v2=False):
+DATACLASS_MODULES = [
+    "from dataclasses import dataclass\n\n\n@dataclass\nclass Config:\n    host: str\n    port: int = 80\n\n\n@dataclass\nclass _Hidden:\n    x: int = 0\n",
+    "import dataclasses\n\n\n@dataclasses.dataclass\nclass Point:\n    x: int\n    y: int = 0\n\n\n@dataclasses.dataclass\nclass Point3(Point):\n    z: int = 0\n\n\ndef origin() -> Point: pass\n",
+]
+
+
+def make_history(ctx, stream, force_v2=False, compat_only=False):
     """Three versions of one package: v0 -> v1 by the stream's edit script, v1 -> v2 by one or two further edits (or none)."""
     rng = ctx.rng
     c = make_case(ctx, stream)
@@ -1982,12 +2032,19 @@ def make_history(ctx, stream, force_v2=False):
     names = []
     if force_v2 or rng.random() < 0.75:
         for _ in range(rng.randint(1, 2) + (2 if force_v2 else 0)):
-            name = rng.choice(["override", "override"] + INCOMPAT + COMPAT + COMPAT)
+            name = rng.choice(COMPAT if compat_only else ["override", "override"] + INCOMPAT + COMPAT + COMPAT)
             m = EDITS[name](rng, v2)
             if m:
                 names += [x["edit"] for x in (m if isinstance(m, list) else [m])]
-    return {"stream": stream, "versions": [files_of(c.old_spec), files_of(c.new_spec), files_of(v2)],
-            "edits": [[m["edit"] for m in c.metas], names]}
+    versions = [files_of(c.old_spec), files_of(c.new_spec), files_of(v2)]
+    # every version carries the same module of @dataclass classes without an explicit __init__ (the built-in extension synthesises it at
+    # load time; `griffe check` hands the SAME extension instances to the load of the old and of the new version); in half of the
+    # histories the working tree adds an optional field at the end (compatible)
+    dc = rng.choice(DATACLASS_MODULES)
+    for i, v in enumerate(versions):
+        v["pkg/conf.py"] = dc + ("" if i < 2 or rng.random() < 0.5 else "\n\n@dataclass\nclass Extra:\n    n: int = 1\n" if "import dataclass\n" in dc
+                                else "\n\n@dataclasses.dataclass\nclass Extra:\n    n: int = 1\n")
+    return {"stream": stream, "versions": versions, "edits": [[m["edit"] for m in c.metas], names]}
 
 
 def load_git_sources(ctx, k, h, repo, prefix, layout):
@@ -2101,6 +2158,23 @@ def cli_history(ctx, k, h):
         if rwf and er[0] == "ok" and exitc != p.returncode:
             ctx.tie_failure("correspondence", "check_exit(elaborated model) vs the exit code of `griffe check`",
                             {"model": exitc, "cli": p.returncode, "stderr": p.stderr[-300:]}, case)
+        if a == 0 and b == 2:
+            # the same comparison through the Python entry point griffe.check(), in this process (one load_extensions() for both loads)
+            import contextlib
+            import io
+            import griffe
+            here, err = os.getcwd(), io.StringIO()
+            try:
+                os.chdir(repo)
+                with contextlib.redirect_stderr(err), contextlib.redirect_stdout(io.StringIO()):
+                    rc = with_alarm(60, lambda: griffe.check("pkg", against="v0", search_paths=sargs[1:] or ["."]))
+            except Exception as e:  # noqa: BLE001
+                rc = "raised " + repr(e)[:200]
+            finally:
+                os.chdir(here)
+            ctx.count("check_api_runs")
+            if rc != (1 if ibs else 0):
+                ctx.property_failure(dict(case, entry="griffe.check()"), {"griffe.check() returned": rc, "find_breaking_changes": ibs[:5], "stderr": err.getvalue()[-400:]})
 
 
 # --------------------------------------------------------------------------------------------------------------------
@@ -2110,12 +2184,12 @@ def make_case(ctx, stream):
     facade = stream.startswith("facade:")
     if facade:
         stream = stream.split(":", 1)[1]
-    old = gen_composed_pkg(rng) if stream == "composed-all" else gen_pkg(rng, stream, facade=facade)
+    old = gen_composed_pkg(rng, wildcard=(stream == "wildcard-facade")) if stream in ("composed-all", "wildcard-facade") else gen_pkg(rng, stream, facade=facade)
     new = copy.deepcopy(old)
     metas = []
     if stream == "identical" or stream == "cyclic" and rng.random() < 0.5:
         pass
-    elif stream == "composed-all":
+    elif stream in ("composed-all", "wildcard-facade"):
         for k in range(rng.choice([1, 1, 2])):
             m = EDITS[rng.choice(COMPOSED_EDITS)](rng, new)
             if m:
@@ -2160,7 +2234,7 @@ def make_case(ctx, stream):
 
 STREAMS = ["identical", "compatible", "compatible", "incompatible", "incompatible", "incompatible", "incompatible+compatible", "mixed", "mixed",
            "empty-all", "cyclic", "class-combo", "incompatible-multi", "facade:incompatible", "facade:compatible", "facade:mixed",
-           "hierarchy", "hierarchy", "facade:hierarchy", "composed-all", "composed-all"]
+           "hierarchy", "hierarchy", "facade:hierarchy", "composed-all", "composed-all", "wildcard-facade", "wildcard-facade"]
 
 
 def explore(ctx):
@@ -2190,7 +2264,7 @@ def explore(ctx):
         ctx.count(k, v)
     # the direct checks must not be vacuous
     for key in ("compatible_scripts", "public_incompatible_reported", "private_only_scripts", "unresolvable_survived", "cyclic_survived",
-                "edit_expectations_in_multi_edit_scripts", "class_view_expectations_overridden_inherited", "frontier_members_checked"):
+                "edit_expectations_in_multi_edit_scripts", "class_view_expectations_overridden_inherited", "frontier_members_checked", "frontier_wildcard_members_checked"):
         if not tally[key]:
             ctx.tie_failure("harness", f"degenerate generation: no case exercised `{key}`", dict(tally))
     # CLI exit code
@@ -2200,7 +2274,10 @@ def explore(ctx):
         # flat-layout histories (k % 3 == 0) always have an incompatible v0 -> v1 script and a working tree that differs from both tags
         stream = ["facade:incompatible", "hierarchy", "facade:hierarchy", "incompatible", "mixed", "facade:compatible", "incompatible-multi", "cyclic",
                   "identical"][k % 9]
-        cli_history(ctx, k, make_history(ctx, stream, force_v2=(k % 3 == 0)))
+        # src-layout histories (k % 3 == 1) hold compatible edits only: all three comparisons must be silent
+        if k % 3 == 1:
+            stream = ["compatible", "facade:compatible", "identical"][(k // 3) % 3]
+        cli_history(ctx, k, make_history(ctx, stream, force_v2=(k % 3 == 0), compat_only=(k % 3 == 1)))
     ncli = ctx.budget(4, 24)
     ok = [c for c in cases if not c.overrides and getattr(c, "result", ("", []))[0] == "ok"]
     broken = lambda c: bool(c.result[1])
